@@ -324,6 +324,10 @@ def _eval_ifexp(ctx, m, e, param, member):
 
 def r5(ctx):
     R = "C11.R5"
+    from . import c12
+    from .common import reuse
+
+    reuse(ctx, R, [c12.r6], "the last reported records are never written in place (the 'other' timer must stay exactly as the console reported it)", keep=lambda o: "timer" in o.construct.lower() or o.verdict != "HOLDS")
     api = ctx.repo.module("pyairtouch.api")
     tt = api.get_class("AcTimerType")
     ON = EnumVal(tt, "ON_TIMER", tt.enum_members(ctx.repo)["ON_TIMER"])
